@@ -329,6 +329,10 @@ func answersFromCurrentFraction(c *Ctx) {
 			}
 			bad := false
 			for _, o := range c.P.Origins(ret.Results[0], nil, 2, func(cl ssa.CallInstruction) bool { return strings.HasSuffix(CallName(cl), ")."+short) }) {
+				if !DerivesFrom(o.Val, isDelegate) && sealedOnlyMemo(c, o.Val) {
+					c.Site(ret.Pos(), "%s may answer from a remembered Info that is only ever taken from a sealed fraction (immutable)", it.fn)
+					continue
+				}
 				if !DerivesFrom(o.Val, isDelegate) {
 					bad = true
 					c.Violation("delegate:"+it.fn+":stale", ret.Pos(), "%s can answer with %s, which is not what the current fraction says at the time of the call: while a fraction is being sealed its borders and counters still move (bulks that passed the writable check are indexed after the fraction became read-only), so a remembered Info hides the newest documents from time-ranged searches and makes the fetch reject their ids", it.fn, Short(o.Val.String()))
@@ -887,46 +891,46 @@ func decodedOwnsItsMemory(c *Ctx) {
 	if fn == nil {
 		return
 	}
-	var scratch []*ssa.Parameter
-	for _, p := range fn.Params[1:] {
-		if strings.HasSuffix(TypeStr(p.Type()), "unpackBuffer") {
-			scratch = append(scratch, p)
-		}
+	isScratch := func(v ssa.Value) bool {
+		p, ok := v.(*ssa.Parameter)
+		return ok && strings.HasSuffix(TypeStr(p.Type()), "unpackBuffer")
 	}
-	if len(scratch) == 0 {
+	hasScratch := false
+	for _, p := range fn.Params {
+		hasScratch = hasScratch || isScratch(p)
+	}
+	if !hasScratch {
 		c.Note("Chunks.unpack no longer takes a scratch buffer; the ownership rule has nothing to check")
 		c.Site(fn.Pos(), "Chunks.unpack has no scratch buffer parameter")
 		return
 	}
+	isChunks := func(v ssa.Value) bool {
+		p, ok := v.(*ssa.Parameter)
+		return ok && strings.HasSuffix(TypeStr(p.Type()), "lids.Chunks")
+	}
 	n := 0
-	for _, b := range fn.Blocks {
-		for _, in := range b.Instrs {
-			st, ok := in.(*ssa.Store)
-			if !ok {
-				continue
-			}
-			fa, ok := st.Addr.(*ssa.FieldAddr)
-			if !ok || fa.X != ssa.Value(fn.Params[0]) {
-				continue
-			}
-			if _, isSl := st.Val.Type().Underlying().(*types.Slice); !isSl {
-				continue
-			}
-			n++
-			_, fld, _, _ := FieldOf(fa)
-			view := DerivesFromNoCall(st.Val, func(v ssa.Value) bool {
-				for _, p := range scratch {
-					if v == ssa.Value(p) {
-						return true
-					}
-				}
-				return false
-			})
-			if view {
-				c.Violation("own:Chunks.unpack:"+fld, st.Pos(), "Chunks.unpack stores a view of the loader's scratch buffer into %s: the Chunks goes into the LIDs cache while the loader reuses the buffer for the next block, so a cached block is overwritten by the contents of the block read after it — the first answer is right, every answer served from the cache is not", fld)
-			} else {
-				c.Site(st.Pos(), "Chunks.%s is a copy, not a view of the scratch buffer", fld)
-			}
+	// the stores may sit in unpack itself or in a helper it hands the Chunks and the buffer to
+	for _, l := range c.P.FindLiftedAll(fn, func(in ssa.Instruction) bool {
+		st, ok := in.(*ssa.Store)
+		if !ok {
+			return false
+		}
+		fa, ok := st.Addr.(*ssa.FieldAddr)
+		if !ok || !isChunks(fa.X) {
+			return false
+		}
+		_, isSl := st.Val.Type().Underlying().(*types.Slice)
+		return isSl
+	}) {
+		st := l.In.(*ssa.Store)
+		fa := st.Addr.(*ssa.FieldAddr)
+		n++
+		_, fld, _, _ := FieldOf(fa)
+		view := DerivesFromNoCall(st.Val, isScratch)
+		if view {
+			c.Violation("own:Chunks.unpack:"+fld, st.Pos(), "Chunks.unpack stores a view of the loader's scratch buffer into %s: the Chunks goes into the LIDs cache while the loader reuses the buffer for the next block, so a cached block is overwritten by the contents of the block read after it — the first answer is right, every answer served from the cache is not", fld)
+		} else {
+			c.Site(st.Pos(), "Chunks.%s is a copy, not a view of the scratch buffer", fld)
 		}
 	}
 	if n == 0 {
@@ -1024,4 +1028,81 @@ func derivesFromLoadOfSameTable(v, table ssa.Value) bool {
 		ia, ok := u.X.(*ssa.IndexAddr)
 		return ok && ia.X == table
 	})
+}
+
+// sealedOnlyMemo: v is read from a field of the proxy fraction (plainly or through atomic Load), and every value
+// the package stores into that field derives from (*frac.Sealed).Info — a sealed fraction does not change any more.
+func sealedOnlyMemo(c *Ctx, v ssa.Value) bool {
+	var field string
+	fieldOf := func(x ssa.Value) string {
+		for i := 0; x != nil && i < 6; i++ {
+			if fa, ok := x.(*ssa.FieldAddr); ok {
+				if typ, fld, _, okF := FieldOf(fa); okF && strings.HasSuffix(typ, "fracmanager.proxyFrac") {
+					return fld
+				}
+				x = fa.X
+				continue
+			}
+			if u, ok := x.(*ssa.UnOp); ok {
+				x = u.X
+				continue
+			}
+			break
+		}
+		return ""
+	}
+	DerivesFrom(v, func(x ssa.Value) bool {
+		switch y := x.(type) {
+		case ssa.CallInstruction:
+			if n := CallName(y); strings.Contains(n, "atomic.") && strings.HasSuffix(n, ").Load") && len(y.Common().Args) > 0 {
+				if f := fieldOf(y.Common().Args[0]); f != "" {
+					field = f
+					return true
+				}
+			}
+		case *ssa.UnOp:
+			if y.Op == token.MUL {
+				if f := fieldOf(y.X); f != "" && f != "active" && f != "sealed" {
+					field = f
+					return true
+				}
+			}
+		}
+		return false
+	})
+	if field == "" {
+		return false
+	}
+	fromSealed := func(x ssa.Value) bool {
+		return DerivesFrom(x, func(y ssa.Value) bool {
+			cl, ok := y.(ssa.CallInstruction)
+			return ok && CallName(cl) == "(*frac.Sealed).Info"
+		})
+	}
+	stores, ok := 0, true
+	for _, fn := range c.P.FuncsInPkg("fracmanager") {
+		for _, b := range fn.Blocks {
+			for _, in := range b.Instrs {
+				switch y := in.(type) {
+				case ssa.CallInstruction:
+					n := CallName(y)
+					if strings.Contains(n, "atomic.") && (strings.HasSuffix(n, ").Store") || strings.HasSuffix(n, ").Swap") || strings.HasSuffix(n, ").CompareAndSwap")) && len(y.Common().Args) >= 2 && fieldOf(y.Common().Args[0]) == field {
+						stores++
+						args := y.Common().Args
+						if !fromSealed(args[len(args)-1]) && !IsNilConst(args[len(args)-1]) {
+							ok = false
+						}
+					}
+				case *ssa.Store:
+					if fa, isFA := y.Addr.(*ssa.FieldAddr); isFA && fieldOf(fa) == field {
+						stores++
+						if !fromSealed(y.Val) && !IsNilConst(y.Val) {
+							ok = false
+						}
+					}
+				}
+			}
+		}
+	}
+	return ok && stores > 0
 }
